@@ -41,6 +41,14 @@ func serverHeaderTypes(p *core.Prog) []*types.Named {
 				if ts == metadataPkg+".MD" || ts == "bool" {
 					own = true
 				}
+				// header state grouped in a private struct field ({md; sent})
+				if in, isS := st.Field(i).Type().Underlying().(*types.Struct); isS {
+					for j := 0; j < in.NumFields(); j++ {
+						if t2 := core.TypeStr(in.Field(j).Type()); t2 == metadataPkg+".MD" || t2 == "bool" {
+							own = true
+						}
+					}
+				}
 			}
 			if own {
 				out = append(out, nt)
